@@ -396,11 +396,27 @@ func c13c(c *Ctx) {
 		key := "ConvertGoType:case " + tn
 		bound := info.Implicits[cc]
 		okShape := false
-		if len(cc.Body) == 1 {
-			if rs, ok := cc.Body[0].(*ast.ReturnStmt); ok && len(rs.Results) == 1 {
+		// the arm is `return f(<matched value>, dataType)`, possibly after local definitions that only
+		// convert the matched value (`s := string(t)`)
+		cdefs := localDefs(info, cc)
+		pureDefs := len(cc.Body) >= 1
+		for _, st := range cc.Body[:max(len(cc.Body)-1, 0)] {
+			as, ok := st.(*ast.AssignStmt)
+			if !ok || as.Tok != token.DEFINE {
+				pureDefs = false
+				continue
+			}
+			for _, cl := range calls(as, true) {
+				if tv, ok := info.Types[cl.Fun]; !ok || !tv.IsType() {
+					pureDefs = false
+				}
+			}
+		}
+		if pureDefs {
+			if rs, ok := cc.Body[len(cc.Body)-1].(*ast.ReturnStmt); ok && len(rs.Results) == 1 {
 				if call, ok := unparen(rs.Results[0]).(*ast.CallExpr); ok && len(call.Args) == 2 {
 					f, _ := callee(info, call).(*types.Func)
-					a0 := stripConv(info, call.Args[0])
+					a0 := stripConv(info, cdefs.resolve1(info, stripConv(info, call.Args[0])))
 					id0, _ := a0.(*ast.Ident)
 					id1, _ := unparen(call.Args[1]).(*ast.Ident)
 					if f != nil && id0 != nil && id1 != nil && info.ObjectOf(id0) == bound && info.ObjectOf(id1) == ps[1] {
@@ -463,6 +479,9 @@ func c13c(c *Ctx) {
 			id, ok := unparen(e).(*ast.Ident)
 			return ok && info.ObjectOf(id) == rp[0]
 		}
+		// a returned single-definition local (`s := strconv.Itoa(v); return s, nil`) stands for its definition
+		rdefs := localDefs(info, rfd.Body)
+		res0 := func(e ast.Expr) ast.Expr { return rdefs.resolve1(info, e) }
 		// v may be re-assigned only to a trimmed/defaulted form of itself (goStringRecast)
 		identityArm := func(mt string) {
 			key := f.Name() + ":" + mt + ":identity"
@@ -492,7 +511,7 @@ func c13c(c *Ctx) {
 				for _, r := range rets {
 					good := false
 					if len(r.Results) == 2 {
-						if call, isC := unparen(r.Results[0]).(*ast.CallExpr); isC {
+						if call, isC := res0(r.Results[0]).(*ast.CallExpr); isC {
 							o := callee(info, call)
 							if o != nil && o.Pkg() != nil && o.Pkg().Path() == "strconv" && (o.Name() == "Itoa" || o.Name() == "FormatInt") && len(call.Args) >= 1 && isV(stripConv(info, call.Args[0])) {
 								good = true
@@ -517,7 +536,7 @@ func c13c(c *Ctx) {
 				for _, r := range rets {
 					good := false
 					if len(r.Results) == 2 {
-						if call, isC := unparen(r.Results[0]).(*ast.CallExpr); isC && len(call.Args) >= 1 && isV(call.Args[0]) {
+						if call, isC := res0(r.Results[0]).(*ast.CallExpr); isC && len(call.Args) >= 1 && isV(call.Args[0]) {
 							if callIs(info, call, mx("lang/types"), "", "FloatToString") {
 								good = true
 							}
@@ -619,7 +638,7 @@ func c13c(c *Ctx) {
 					c.Undecided("R13c", key, cc.Pos(), "arm does not end in `return value, nil`")
 					return
 				}
-				r0 := unparen(last.Results[0])
+				r0 := res0(last.Results[0])
 				inner := stripConv(info, r0)
 				id, _ := inner.(*ast.Ident)
 				rt := info.TypeOf(r0)
@@ -646,9 +665,21 @@ func c13c(c *Ctx) {
 						if s, ok := constString(info, r); ok && s == "0" {
 							// only for the empty string
 							for _, fct := range factsOf(guardsAt(info, pathTo(rfd.Body, as))) {
-								if b, ok := unparen(fct.E).(*ast.BinaryExpr); ok && b.Op == token.EQL && fct.True && isV(b.X) {
-									if s2, ok := constString(info, b.Y); ok && s2 == "" {
-										okR = true
+								// v == "" | "" == v | len(v) == 0 (or any spelling that is true exactly for length 0)
+								if b, ok := unparen(fct.E).(*ast.BinaryExpr); ok && (b.Op == token.EQL) == fct.True && (b.Op == token.EQL || b.Op == token.NEQ) {
+									for _, pr := range [][2]ast.Expr{{b.X, b.Y}, {b.Y, b.X}} {
+										if s2, ok := constString(info, pr[1]); ok && s2 == "" && isV(pr[0]) {
+											okR = true
+										}
+									}
+								}
+								if x, op, k, ok := cmpNorm(info, fct.E); ok {
+									if lc, ok := isBuiltinCall(info, x, "len"); ok && len(lc.Args) == 1 && isV(lc.Args[0]) {
+										p := intPred(op, k)
+										truth := fct.True
+										if samePredOnRange(func(v int64) bool { return p(v) == truth }, func(v int64) bool { return v == 0 }, 0, 4) {
+											okR = true
+										}
 									}
 								}
 							}
@@ -677,7 +708,7 @@ func c13c(c *Ctx) {
 				for _, r := range rets {
 					good := false
 					if len(r.Results) == 2 {
-						if call, isC := unparen(r.Results[0]).(*ast.CallExpr); isC && len(call.Args) == 2 {
+						if call, isC := res0(r.Results[0]).(*ast.CallExpr); isC && len(call.Args) == 2 {
 							if callIs(info, call, mx("lang/types"), "", "IsTrue") || callIs(info, call, mx("lang/types"), "", "IsTrueString") {
 								a0 := stripConv(info, call.Args[0])
 								if z, isK := constInt(info, call.Args[1]); isK && z == 0 && isV(a0) {
@@ -828,6 +859,30 @@ func c13FalsyList(c *Ctx) (map[string]bool, token.Pos) {
 	info := pk.TypesInfo
 	out := map[string]bool{}
 	ast.Inspect(fd.Body, func(n ast.Node) bool {
+		// `switch s { case "", "null", …: return false }` is the same list as `if s == "" || s == "null" … { return false }`
+		if sw, ok := n.(*ast.SwitchStmt); ok && sw.Tag != nil {
+			if _, isId := unparen(sw.Tag).(*ast.Ident); isId {
+				for _, st := range sw.Body.List {
+					cc := st.(*ast.CaseClause)
+					if len(cc.Body) != 1 {
+						continue
+					}
+					rs, ok := cc.Body[0].(*ast.ReturnStmt)
+					if !ok || len(rs.Results) != 1 {
+						continue
+					}
+					if b, ok := constBool(info, rs.Results[0]); !ok || b {
+						continue
+					}
+					for _, x := range cc.List {
+						if s, ok := constString(info, x); ok {
+							out[s] = true
+						}
+					}
+				}
+			}
+			return true
+		}
 		is, ok := n.(*ast.IfStmt)
 		if !ok || len(is.Body.List) != 1 {
 			return true
@@ -877,12 +932,28 @@ func c13e(c *Ctx) {
 	// strings.ToLower / strings.TrimSpace over the parameter
 	var normFns []string
 	defs := localDefs(info, fd.Body)
-	var cmpVar ast.Expr
+	var cmpVar *ast.Ident
 	ast.Inspect(fd.Body, func(n ast.Node) bool {
-		if be, ok := n.(*ast.BinaryExpr); ok && be.Op == token.EQL && cmpVar == nil {
-			if _, ok := constString(info, be.Y); ok {
-				if id, ok := unparen(be.X).(*ast.Ident); ok {
-					cmpVar = id
+		if cmpVar != nil {
+			return false
+		}
+		switch v := n.(type) {
+		case *ast.BinaryExpr:
+			if v.Op == token.EQL {
+				for _, pr := range [][2]ast.Expr{{v.X, v.Y}, {v.Y, v.X}} {
+					if _, ok := constString(info, pr[1]); ok {
+						if id, ok := unparen(pr[0]).(*ast.Ident); ok && cmpVar == nil {
+							cmpVar = id
+						}
+					}
+				}
+			}
+		case *ast.SwitchStmt:
+			if v.Tag != nil {
+				if id, ok := unparen(v.Tag).(*ast.Ident); ok {
+					if _, isStr := info.TypeOf(id).Underlying().(*types.Basic); isStr && info.TypeOf(id).Underlying().(*types.Basic).Kind() == types.String {
+						cmpVar = id
+					}
 				}
 			}
 		}
@@ -890,22 +961,46 @@ func c13e(c *Ctx) {
 	})
 	okNorm := cmpVar != nil
 	if cmpVar != nil {
-		e := defs.resolve1(info, cmpVar)
-		for {
-			call, ok := e.(*ast.CallExpr)
-			if !ok {
-				break
-			}
-			o := callee(info, call)
-			if o == nil || o.Pkg() == nil || o.Pkg().Path() != "strings" || len(call.Args) != 1 {
+		// the compared local is defined by strings.F(strings.G(param)); further definitions may only
+		// re-normalise the local itself (`s := strings.TrimSpace(stdout); s = strings.ToLower(s)`)
+		obj := info.ObjectOf(cmpVar)
+		ds := defs[obj]
+		if isParam(info, fd, cmpVar) {
+			ds = nil // the parameter itself is compared: no normalisation
+		} else if len(ds) == 0 {
+			okNorm = false
+		}
+		for di, d := range ds {
+			if d == nil {
 				okNorm = false
 				break
 			}
-			normFns = append(normFns, o.Name())
-			e = unparen(call.Args[0])
-		}
-		if id, ok := e.(*ast.Ident); !ok || !isParam(info, fd, id) {
-			okNorm = false
+			e := unparen(d)
+			var fns []string
+			for {
+				call, ok := e.(*ast.CallExpr)
+				if !ok {
+					break
+				}
+				o := callee(info, call)
+				if o == nil || o.Pkg() == nil || o.Pkg().Path() != "strings" || len(call.Args) != 1 {
+					okNorm = false
+					break
+				}
+				fns = append(fns, o.Name())
+				e = unparen(call.Args[0])
+			}
+			id, ok := e.(*ast.Ident)
+			switch {
+			case !ok:
+				okNorm = false
+			case di == 0 && !isParam(info, fd, id):
+				okNorm = false
+			case di > 0 && info.ObjectOf(id) != obj:
+				okNorm = false
+			}
+			// normFns lists outermost-last-applied first (the fixed-point loop below applies it from the end)
+			normFns = append(fns, normFns...)
 		}
 	}
 	if !okNorm {
@@ -952,8 +1047,17 @@ func c13e(c *Ctx) {
 	okArms := 0
 	bad := ""
 	ast.Inspect(fd.Body, func(n ast.Node) bool {
-		cc, ok := n.(*ast.CaseClause)
-		if !ok || len(cc.List) != 1 || len(cc.Body) != 1 {
+		// an arm is `case <cmp exitNum>: return K` or the equivalent `if <cmp exitNum> { return K }`
+		var cc *ast.CaseClause
+		switch v := n.(type) {
+		case *ast.CaseClause:
+			cc = v
+		case *ast.IfStmt:
+			if v.Init == nil {
+				cc = &ast.CaseClause{Case: v.Pos(), List: []ast.Expr{v.Cond}, Body: v.Body.List}
+			}
+		}
+		if cc == nil || len(cc.List) != 1 || len(cc.Body) != 1 {
 			return true
 		}
 		x, op, k, ok := cmpNorm(info, cc.List[0])
